@@ -37,6 +37,54 @@ def programs(ctx):
     return progs
 
 
+DERIVE_OPS = [["op", "with_query", ["map", ["k", "v w"]]], ["op", "with_path", "/n w", False, True, True], ["op", "with_fragment", "fr é"],
+              ["op", "div", "seg é"], ["op", "with_host", "other.example"], ["op", "with_port", 8081], ["op", "with_user", "us er"],
+              ["op", "update_query", "a=b"], ["op", "extend_query", "z=1"], ["op", "with_name", "nm.txt", False, False],
+              ["op", "parent"], ["op", "origin"], ["op", "with_scheme", "https"], ["op", "with_suffix", ".x", True, True],
+              ["op", "without_query_params", ["a"]], ["op", "with_password", "pw"]]
+
+
+def derive_suite(ctx):
+    """modifiers applied to one shared, freshly built URL while other threads read it for the
+    first time: every thread must see the sequential result of the extracted model"""
+    rng = ctx.rng
+    bases = []
+    for i in range(150 if ctx.quick else 600):
+        h = rng.choice(["example.com", "bücher.example", "[::1]", "127.0.0.1", "EXAMPLE.COM", "h"])
+        ui = rng.choice(["", "u@", "u:p@", "us%20er:p%40w@"])
+        port = rng.choice(["", ":8080", ":80"])
+        bases.append([["push", ["url", f"http://{ui}{h}{port}/d{i}/é x/f{i}.tar.gz?a={i}&b=é#fr{i}"]]])
+    nthreads, rounds = (8, 4) if ctx.quick else (16, 10)
+    ops = DERIVE_OPS
+    want = {}
+    for k in (("py", "c") if ctx.c_ok else ("py",)):
+        progs = []
+        for i, b in enumerate(bases):
+            for t in range(nthreads):
+                progs.append(b + [ops[(t // 2 + i) % len(ops)]] if t % 2 == 0 else b)
+        want[k] = core.run_sharded("model", ctx.overlay, [core.call_line("observe@" + k, 2, p) for p in progs])
+    res = core.run_all(ctx, [core.call_line("threads_derive", bases, ops, 2, nthreads, rounds, ctx.seed)], kinds=("py", "c"))
+    name = "C20-derive-from-shared"
+    for k, o in res.items():
+        r = dec(o[0])
+        ctx.count(name, len(bases) * nthreads * rounds, {repr(b) for b in bases}, hist={"threads": nthreads, "rounds": rounds, "bases": len(bases)})
+        if not isinstance(r, list):
+            ctx.violation(kind="predicate-failure", suite=name, backend=k, predicate="thread run completed", impl=str(r)[:500])
+            continue
+        bad = 0
+        for i, row in enumerate(r):
+            for t, v in enumerate(row):
+                if enc(v) != want[k][i * nthreads + t]:
+                    bad += 1
+                    if len(ctx.violations) < 20:
+                        ctx.violation(kind="predicate-failure", suite=name, backend=k,
+                                      predicate="result of a modifier on (or a read of) a shared fresh URL == sequential result of the extracted model",
+                                      thread=t, base=bases[i], op=(ops[(t // 2 + i) % len(ops)] if t % 2 == 0 else "read all accessors"),
+                                      impl=core.shorten(v, 1200), model=core.shorten(core.safe_dec(want[k][i * nthreads + t]), 1200))
+        ctx.suites[name]["predicate_failures"] = ctx.suites[name].get("predicate_failures", 0) + bad
+        ctx.suites[name]["predicate"] = "thread result == model"
+
+
 def gil_scan(ctx):
     import os
     src = os.path.join(ctx.overlay, "yarl", "_quoting_c.c")
@@ -79,6 +127,7 @@ def run(ctx):
                                           impl=core.shorten(v, 1200), model=core.shorten(core.safe_dec(model[k][i]), 1200))
             ctx.suites[name]["predicate_failures"] = ctx.suites[name].get("predicate_failures", 0) + bad
             ctx.suites[name]["predicate"] = "thread result == model"
+    derive_suite(ctx)
     hits = gil_scan(ctx)
     ctx.count("C20-gil-scan", 1, {"scan"})
     if hits:
